@@ -1,0 +1,15 @@
+//go:build verif
+
+// Package verifhook provides named instrumentation points for the external
+// verification harness. It is only active when built with `-tags verif`.
+package verifhook
+
+// Hook is installed by the verification harness; nil means "do nothing".
+var Hook func(name string)
+
+// Point reports that execution reached the named point.
+func Point(name string) {
+	if h := Hook; h != nil {
+		h(name)
+	}
+}
